@@ -3,6 +3,7 @@ module verifharness
 go 1.26.4
 
 require (
+	github.com/anishathalye/porcupine v1.3.0
 	github.com/fxamacker/cbor v1.5.1
 	github.com/privacybydesign/gabi v0.0.0
 	github.com/sirupsen/logrus v1.9.4
